@@ -54,6 +54,7 @@ def inputRaw? : Sexp → Option Input
       some (.decode (← bool? t) (← charset? cs) (← list? bytes? chunks) (← opt? text? whole))
   | .list (.atom "stream" :: rest) => (streamIn? rest).map .stream
   | .list (.atom "ctype" :: rest) => (ct? rest).map .ctype
+  | .list [.atom "ctypeSeq", cts] => (list? (fun x => match x with | .list xs => ct? xs | _ => none) cts).map .ctypeSeq
   | .list [.atom "copy", i, ops] => do some (.copy (← list? bytes? i) (← list? copyOp? ops))
   | _ => none
 
@@ -103,6 +104,7 @@ def trace? : Sexp → Option Trace
       some (.decode (← opt? (list? (list? nat?)) p) (← opt? exc? e) (← opt? (list? nat?) w))
   | .list [.atom "stream", evs] => (list? ev? evs).map .stream
   | .list [.atom "ctype", r, p] => do some (.ctype (← list? nat? r) (← parsed? p))
+  | .list [.atom "ctypeSeq", rs] => (list? (pair? (list? nat?) parsed?) rs).map .ctypeSeq
   | .list [.atom "copy", obs] => (list? obs? obs).map .copy
   | _ => none
 
@@ -113,13 +115,17 @@ def ofTrace : Trace → Sexp
   | .decode p e w => tag "decode" [ofOpt (ofList ofNats) p, ofOpt ofExc e, ofOpt ofNats w]
   | .stream evs => tag "stream" [ofList ofEv evs]
   | .ctype r p => tag "ctype" [ofNats r, ofParsed p]
+  | .ctypeSeq rs => tag "ctypeSeq" [ofList (ofPair ofNats ofParsed) rs]
   | .copy obs => tag "copy" [ofList ofObs obs]
 
 /-! known-finding classes (KNOWN_FINDINGS.txt); the predicates live in the model file -/
+def ctClasses (ct : CT) : List String :=
+  (if charsetComma ct then ["charsetComma"] else []) ++ (if valueCRLF ct then ["valueCRLF"] else [])
+    ++ (if valueEncodedWord ct then ["valueEncodedWord"] else [])
+
 def classes : Input → List String
-  | .ctype ct =>
-    (if charsetComma ct then ["charsetComma"] else []) ++ (if valueCRLF ct then ["valueCRLF"] else [])
-      ++ (if valueEncodedWord ct then ["valueEncodedWord"] else [])
+  | .ctype ct => ctClasses ct
+  | .ctypeSeq cts => (cts.flatMap fun ct => ctClasses ct.lowered).eraseDups     -- (the generator keeps sequences out of the classes)
   | _ => []
 
 def drv : PropDrv Input Trace :=
